@@ -31,7 +31,8 @@ fn main() {
                 .and_then(|s| s.parse().ok())
                 .or_else(|| std::env::var("VERIF_WORKERS").ok().and_then(|s| s.parse().ok()))
                 .unwrap_or_else(|| std::thread::available_parallelism().map(|n| n.get()).unwrap_or(4));
-            exit(driver::check(&CheckArgs { prop, tier, root_seed: root_seed(), runs, workers }));
+            let merge_key = arg_val(&args, "--merge");
+            exit(driver::check(&CheckArgs { merge_key, prop, tier, root_seed: root_seed(), runs, workers }));
         }
         "worker" => {
             // worker <prop> <tier> <root> <from> <to> <outdir> <resultfile>
